@@ -516,6 +516,78 @@ def _node_calls(n):
     return out
 
 
+class _Norm(ast.NodeTransformer):
+    """`np.logical_not(m)` / `np.invert(m)` is `~m`; a call of a local that
+    is bound once to `functools.partial(f, *a, **k)` is a call of `f` with
+    the merged arguments"""
+
+    def __init__(self, partials):
+        self.partials = partials
+
+    def visit_FunctionDef(self, node):
+        if getattr(self, "_root", None) is None:
+            self._root = node
+            self.generic_visit(node)
+        return node
+
+    def visit_Lambda(self, node):
+        return node
+
+    def visit_Call(self, node):
+        self.generic_visit(node)
+        if last_attr(node) in ("logical_not", "invert") and isinstance(
+                node.func, ast.Attribute) and dotted(node.func.value) in (
+                "np", "numpy") and len(node.args) == 1 \
+                and not node.keywords:
+            return ast.copy_location(
+                ast.UnaryOp(op=ast.Invert(), operand=node.args[0]), node)
+        if isinstance(node.func, ast.Name) and node.func.id in self.partials:
+            p = self.partials[node.func.id]
+            given = {k.arg for k in node.keywords}
+            return ast.copy_location(ast.Call(
+                func=p.args[0],
+                args=list(p.args[1:]) + list(node.args),
+                keywords=[k for k in p.keywords if k.arg not in given]
+                + list(node.keywords)), node)
+        return node
+
+
+def norm(func):
+    """normalised copy of a function (see _Norm); parent links kept"""
+    import copy
+    from ..core import link
+    partials = {}
+    counts = {}
+    for n in walk(func):
+        if isinstance(n, ast.Name) and isinstance(n.ctx, ast.Store):
+            counts[n.id] = counts.get(n.id, 0) + 1
+    for n in walk(func):
+        if isinstance(n, ast.Assign) and len(n.targets) == 1 \
+                and isinstance(n.targets[0], ast.Name) and isinstance(
+                n.value, ast.Call) and (call_name(n.value) or "") in (
+                "functools.partial", "partial") and n.value.args \
+                and counts.get(n.targets[0].id) == 1 \
+                and all(k.arg for k in n.value.keywords):
+            partials[n.targets[0].id] = n.value
+    uses_not = any(isinstance(c, ast.Call) and last_attr(c) in (
+        "logical_not", "invert") for c in walk(func))
+    if not partials and not uses_not:
+        return func
+    new = copy.deepcopy(func)
+    # (the partial objects of the copy)
+    cp = {}
+    for n in walk(new):
+        if isinstance(n, ast.Assign) and len(n.targets) == 1 \
+                and isinstance(n.targets[0], ast.Name) \
+                and n.targets[0].id in partials:
+            cp[n.targets[0].id] = copy.deepcopy(n.value)
+    new = _Norm(cp).visit(new)
+    ast.fix_missing_locations(new)
+    link(new)
+    new.parent = getattr(func, "parent", None)
+    return new
+
+
 def functions_with_class(repo, rel):
     def rec(node, cls):
         for st in getattr(node, "body", []):
@@ -533,7 +605,7 @@ def r121(ctx, repo):
     for rel in SCOPE:
         for func, cls in functions_with_class(repo, rel):
             n_funcs += 1
-            ft = FuncTaint(repo, rel, func, cls, summaries)
+            ft = FuncTaint(repo, rel, norm(func), cls, summaries)
             per_site = {}
             for nid, node, kind, exprs in ft.sink_sites():
                 st = ft.state_in.get(nid, {})
@@ -752,6 +824,7 @@ def r122(ctx, repo):
     for func, cls in functions_with_class(repo, CORE):
         if func.name in ("_apply_scale", "get_kde_spacing"):
             continue
+        func = norm(func)
         if not scaling_calls(func):
             continue
         # private helpers extracted from the function (e.g. a helper that
@@ -1408,6 +1481,7 @@ def r124(ctx, repo):
 def r127(ctx, repo):
     n_grids = 0
     for func0, cls in functions_with_class(repo, CORE):
+        func0 = norm(func0)
         lins = [c for c in walk(func0) if isinstance(c, ast.Call)
                 and (call_name(c) or "").endswith("linspace")]
         if not lins or not scaling_calls(func0):
@@ -1661,7 +1735,7 @@ class Purge:
 
 
 def r125(ctx, repo):
-    funcs = {st.name: st for st in repo.tree(KDE).body
+    funcs = {st.name: norm(st) for st in repo.tree(KDE).body
              if isinstance(st, ast.FunctionDef)}
     info = {name: Purge(f) for name, f in funcs.items()}
     helpers = sorted(n for n in funcs if re.match(r"bin_(width|num)_\w+$", n)
@@ -2429,5 +2503,57 @@ MUTANTS = list(MUTANTS) + [
     ("kde_none: ones of the position dtype", KDE,
      ("    return np.ones(xout.shape)", "    return np.ones_like(xout)"),
      "R12.8"),
+]
+
+
+_SPACING_X = ("        xacc_sc, xs = RTDCBase.get_kde_spacing(\n"
+              "            a=x,\n            feat=xax,\n"
+              "            scale=xscale,\n"
+              "            method=kde_methods.bin_width_doane,\n"
+              "            ret_scaled=True)\n")
+_SPACING_Y = _SPACING_X.replace("xacc_sc, xs", "yacc_sc, ys").replace(
+    "a=x,", "a=y,").replace("feat=xax", "feat=yax").replace(
+    "scale=xscale", "scale=yscale")
+_PARTIAL = ("        get_spacing = functools.partial(\n"
+            "            RTDCBase.get_kde_spacing,\n"
+            "            method=kde_methods.bin_width_doane,\n"
+            "            ret_scaled=True)\n")
+
+
+def _not_form(src):
+    """every `x[~mask]` of kde_methods written with np.logical_not"""
+    import re
+    new = re.sub(r"\[~(\w+)\]", r"[np.logical_not(\1)]", src)
+    return new
+
+
+TWINS = list(TWINS) + [
+    ("kde_methods: masks negated with np.logical_not", KDE, _not_form),
+    ("contour: spacing calls through functools.partial, flatnonzero", CORE,
+     [("import abc\n", "import abc\nimport functools\n"),
+      (_SPACING_X, _PARTIAL
+       + "        xacc_sc, xs = get_spacing(a=x, feat=xax, scale=xscale)\n"),
+      (_SPACING_Y,
+       "        yacc_sc, ys = get_spacing(a=y, feat=yax, scale=yscale)\n"),
+      ("            mids = np.where(self.filter.all)[0]\n",
+       "            mids = np.flatnonzero(self.filter.all)\n")]),
+]
+
+MUTANTS = list(MUTANTS) + [
+    ("doane: logical_not purge, sample size from the raw data", KDE,
+     ("    data = a[~bad]\n    n = data.size\n",
+      "    data = a[np.logical_not(bad)]\n    n = a.size\n"), "R12.5"),
+    ("contour: partial spacing call with the x scale for y", CORE,
+     [("import abc\n", "import abc\nimport functools\n"),
+      (_SPACING_X, _PARTIAL
+       + "        xacc_sc, xs = get_spacing(a=x, feat=xax, scale=xscale)\n"),
+      (_SPACING_Y,
+       "        yacc_sc, ys = get_spacing(a=y, feat=yax, scale=xscale)\n")],
+     "R12.2"),
+    ("contour: partial spacing call on unfiltered data", CORE,
+     [("import abc\n", "import abc\nimport functools\n"),
+      (_SPACING_X, _PARTIAL
+       + "        xacc_sc, xs = get_spacing(a=self[xax], feat=xax, "
+         "scale=xscale)\n")], "R12.1"),
 ]
 
